@@ -39,8 +39,8 @@ Docs == <<
 >>
 
 Fmts == {"json", "pretty", "flow", "block"}
-Lays == {[ind |-> i, quote |-> q, comments |-> c, blanks |-> b] :
-           i \in {0, 2, 4}, q \in {"plain", "single", "double"}, c \in BOOLEAN, b \in BOOLEAN}
+Lays == {[ind |-> i, quote |-> q, comments |-> c, blanks |-> b, lead |-> ld] :
+           i \in {0, 2, 4}, q \in {"plain", "single", "double"}, c \in BOOLEAN, b \in BOOLEAN, ld \in {0, 2}}
 \* tab indentation (ind = 0) exists for pretty JSON only (YAML block style forbids tabs)
 LayOk(fmt, lay) == lay.ind = 0 => (fmt = "pretty" /\ lay.quote = "double" /\ ~lay.comments /\ ~lay.blanks)
 
